@@ -3,7 +3,8 @@ import PydraModel.Graph.OpLemmas
 C37 — Graph operations keep a valid topological order.
 
 Property theorems only.  Model: `Graph/Model.lean` (`DiGraph.sorting/_sorting/add_nodes/add_edges/
-remove_nodes/remove_nodes_connections/sorted_nodes` of pydra/engine/graph.py, after the repairs
+remove_nodes/remove_nodes_connections/remove_previous_connections/remove_successors_nodes/sorted_nodes` of
+pydra/engine/graph.py, after the repairs
 "remove_nodes on a never-sorted graph" (D27) and "raise on a cycle instead of looping" (D12)).
 A *history* is any list of calls none of which raised, starting from the empty graph; there is no
 bound on its length, on the number of nodes or on the number of connections.
@@ -32,7 +33,7 @@ theorem C37_sorted_nodes (ops : List Op) (g : G) (h : runOk ops G.empty = some g
     exact ⟨s, g, by simp [readSorted, hs], hp, hn, ht⟩
   | none =>
     obtain ⟨l, hl⟩ := sortFrom_progress g [] hac (by
-      intro e he; rcases hi.closed e he with h1 | h1
+      intro e he h2; rcases hi.closed e he (by simpa using h2) with h1 | h1
       · exact Or.inr (by simpa using h1)
       · exact Or.inl h1)
     obtain ⟨ht, hp⟩ := sortFrom_spec g [] l hl
@@ -55,7 +56,8 @@ theorem C37_sorting_safe (g : G) (pre l : List Id) (h : sortFrom g pre = some l)
 
 /-- PROGRESS (also used by C18): `sorting` of an acyclic graph always returns. -/
 theorem C37_sorting_progress (g : G) (pre : List Id) (hac : Acyclic g)
-    (hclosed : ∀ e ∈ g.edges, e.1 ∈ g.wip ∨ e.1 ∈ (if pre = [] then g.nodes else pre)) :
+    (hclosed : ∀ e ∈ g.edges, e.2 ∈ (if pre = [] then g.nodes else pre) →
+      e.1 ∈ g.wip ∨ e.1 ∈ (if pre = [] then g.nodes else pre)) :
     ∃ l, sortFrom g pre = some l := sortFrom_progress g pre hac hclosed
 
 /-- Regression witness for D27 (repaired): removing a node from a graph that was never sorted is a
@@ -67,6 +69,22 @@ theorem C37_remove_before_sort :
 /-- A cyclic graph makes `sorting` raise (`none`) instead of looping (D12 repaired). -/
 theorem C37_cycle_raises :
     stepOk ⟨[0, 1], [(0, 1), (1, 0)], [], none⟩ .read = none := by decide
+
+/-- Regression witness for D71 (repaired): `remove_successors_nodes` on a root whose successors come in
+    another order in the sorted list than in the depth-first listing is a valid history … -/
+theorem C37_remove_successors_regression :
+    runOk [.addNodes [0, 1, 3, 2], .addEdges [(0, 1), (1, 2), (1, 3)], .read, .removeNodes [0],
+           .removeSuccessors 0, .read] G.empty = some ⟨[], [], [], some []⟩ := by decide
+
+/-- … whereas the pre-repair order of operations made the re-sort inside it fail (`ValueError`, an endless
+    loop before the cycle check existed) on this ACYCLIC graph. -/
+theorem C37_old_remove_successors_fails :
+    (match (removeSuccessorsOld ⟨[1, 3, 2], [(0, 1), (1, 2), (1, 3)], [0], some [1, 3, 2]⟩ 0).1 with
+     | .error e => decide (e = Err.cycle) | .ok _ => false) = true := by decide
+
+/-- `remove_successors_nodes` leaves exactly the nodes that are not successors, still validly sorted. -/
+example : runOk [.addNodes [0, 1, 2, 3, 4], .addEdges [(0, 1), (1, 2), (3, 4), (3, 2)], .read, .removeNodes [0],
+      .removeSuccessors 0] G.empty = some ⟨[3, 4], [(3, 4)], [], some [3, 4]⟩ := by decide
 
 /-- Non-vacuity: a diamond built in an awkward order, with a removal in the middle, is a history
     that satisfies the hypotheses of the theorems above. -/
